@@ -21,7 +21,7 @@ ASSUMPTIONS = [
 ]
 PLAN = {
     "quick": {"shards": 8, "shard_timeout": 400, "case_timeout": 25, "grammars": 160, "max_case_timeouts": 6},
-    "thorough": {"shards": 16, "shard_timeout": 3600, "case_timeout": 40, "grammars": 6000, "max_case_timeouts": 80},
+    "thorough": {"shards": 16, "shard_timeout": 3600, "case_timeout": 40, "grammars": 12000, "max_case_timeouts": 160},
 }
 THRESHOLDS = {
     "quick": {"api_calls_fingerprinted": 5000, "backtracking_events": 500, "failing_operations": 100, "infeasible_limit_probes": 50, "searches": 30, "repr:tree": 500, "repr:ge": 200, "repr:sge": 200, "repr:dsge": 200, "repr:stack": 50},
